@@ -122,6 +122,8 @@ LIT_FORMS = {
     "(** %s %s)": 2, "(** %s %s %s)": 3, "(- %s)": 1, "(- (- %s))": 1, "(+ %s %s)": 2, "(* %s %s)": 2, "(/ %s %s)": 2, "(// %s %s)": 2, "(% %s %s)": 2,
     "(. %s real)": 1, "(. %s imag)": 1, "(.conjugate %s)": 1, "(.bit-length %s)": 1, "(.is-integer %s)": 1, "(get [1 2 3] %s)": 1, "(get %s 0)": 1,
     "(cut [1 2 3] %s %s)": 2, "(< %s %s %s)": 3, "(bnot %s)": 1, "(not %s)": 1, "(abs %s)": 1, "(if %s %s %s)": 3, "(@ %s %s)": 2, "(<< %s %s)": 2,
+    "((fn [#** kw] (sorted (.items kw))) :class %s :for %s :if 0)": 2, "((fn [a #** kw] [a (sorted (.items kw))]) %s :lambda %s :x 1)": 2,
+    "(do (defclass K [] (defn __init_subclass__ [cls #** kw] (setv cls.kw kw))) (defclass D [K :from %s :in %s]) (sorted (.items D.kw)))": 2,
     "(lfor x [%s %s] (** x 2))": 2, "(.format \"{}\" %s)": 1, "f\"{%s !r :>8}\"": 1, "{%s %s}": 2, "#{%s %s}": 2,
 }
 
